@@ -771,6 +771,7 @@ func cmdExecRunner(c *Ctx, in map[string]string) {
 }
 
 func runC18(c *Ctx) {
+	runC18Conn(c)
 	r := c.R
 	r.Rule = "real cmdhandler.CmdHandler with recording functions and an unconnected client whose Debug writer captures replies: prefixes incl. regex metacharacters and the empty prefix, " +
 		"command/alias sets incl. invalid, upper-case and duplicate names, texts = prefix+name+args with near misses (other prefix, unknown/upper-case/over-long name, double spaces, newline, " +
